@@ -12,6 +12,7 @@ package main
 import (
 	"bufio"
 	"fmt"
+	"os"
 	"sort"
 	"strings"
 
@@ -79,7 +80,7 @@ func runUWire(w *bufio.Writer, seed uint64, n int, _ []string) {
 	for ci := 0; ci < n; ci++ {
 		r := root.Fork()
 		hl := r.Range(1, 700)
-		if r.Intn(4) == 0 {
+		if r.Intn(8) == 0 || os.Getenv("VERIF_TIER") == "thorough" && r.Intn(3) == 0 {
 			hl = r.Range(700, 2600)
 		}
 		hello := testData(r, hl)
@@ -183,6 +184,8 @@ func runUWire(w *bufio.Writer, seed uint64, n int, _ []string) {
 		detailBase := fmt.Sprintf("builder=%s %+v plans=%+v hello=%x mseed=%d", kind, ips.FrameBuilder, ips.InitialPackets, hello, mseed)
 		var rx *quic.VerifRetx
 		var pns []int64
+		pktFrames := map[int64][]quic.VerifRange{}
+		ackedCov := make([]bool, hl)
 		broken := false
 		// one Pack call under the script; logs the case entry
 		pack := func(probe, ping, first bool) *quic.VerifRetxPacket {
@@ -220,6 +223,7 @@ func runUWire(w *bufio.Writer, seed uint64, n int, _ []string) {
 			}
 			sentAny = true
 			pns = append(pns, pkt.PN)
+			pktFrames[pkt.PN] = pkt.Frames
 			if !uwirePacketCheck(w, pkt, hello, det) {
 				broken = true
 			}
@@ -269,7 +273,13 @@ func runUWire(w *bufio.Writer, seed uint64, n int, _ []string) {
 		for step := r.Intn(10); step > 0 && !broken && len(pns) > 0; step-- {
 			switch r.Intn(4) {
 			case 0:
-				rx.Ack(pns[r.Intn(len(pns))])
+				if pn := pns[r.Intn(len(pns))]; rx.Ack(pn) {
+					for _, fr := range pktFrames[pn] {
+						for b := fr.Off; b < fr.Off+fr.Len && b < int64(hl); b++ {
+							ackedCov[b] = true
+						}
+					}
+				}
 			case 1, 2:
 				rx.Lose(pns[r.Intn(len(pns))])
 				if r.Bool() {
@@ -280,6 +290,33 @@ func runUWire(w *bufio.Writer, seed uint64, n int, _ []string) {
 				dist["retx-packets"]++
 			}
 		}
+		// ---- everything still outstanding is lost (PTO): retransmit until the queue is empty ----
+		if !broken && len(firstFlight) > 0 && len(firstFlight) < 12 {
+			for _, pn := range rx.Outstanding() {
+				rx.Lose(pn)
+			}
+			cov := append([]bool{}, ackedCov...)
+			for k := 0; k < 40 && !broken; k++ {
+				pkt := pack(k%3 == 2, false, false)
+				if pkt == nil {
+					break
+				}
+				dist["drain-packets"]++
+				if fs, err := readFrames(pkt.Wire); err == nil {
+					for _, f := range fs {
+						for b := 0; f.typ == 6 && b < len(f.data) && int(f.off)+b < hl; b++ {
+							cov[int(f.off)+b] = true
+						}
+					}
+				}
+			}
+			for b, c := range cov {
+				if !c && !broken {
+					monfail(w, "uwire/retx/incomplete", fmt.Sprintf("after losing every outstanding Initial packet and retransmitting until nothing is queued, byte %d of %d is neither acknowledged nor re-sent", b, hl), detailBase)
+					break
+				}
+			}
+		}
 		if len(pkts) > 0 {
 			nt := 0
 			if !broken {
@@ -288,6 +325,8 @@ func runUWire(w *bufio.Writer, seed uint64, n int, _ []string) {
 			fmt.Fprintf(w, "CASE %d %s\n", nt, u.App("WireCase", sb, u.Hex(hello), u.List(pkts)))
 		}
 	}
+	// ---- planInitialFlight through the real packer (model: OnWire.plan_flight) ----
+	uwirePlans(w, root, n, dist)
 	// ---- what UTransport.Dial says about randomizing builders (model: OnWire.dial_check) ----
 	for i := 0; i < n/3+6; i++ {
 		r := root.Fork()
@@ -334,4 +373,229 @@ func runUWire(w *bufio.Writer, seed uint64, n int, _ []string) {
 		fmt.Fprintf(w, "DIST\t%s\t%d\n", k, dist[k])
 	}
 	_ = strings.TrimSpace
+}
+
+// uwirePlan is one flight plan in both notations.
+type uwirePlan struct {
+	fb   quic.QUICFlightFrameBuilder
+	term string
+	desc string
+}
+
+func uwireFF(dgs ...quic.QUICFrames) uwirePlan {
+	ts := make([]string, len(dgs))
+	for i, d := range dgs {
+		ts[i] = framesTerm(d)
+	}
+	return uwirePlan{fb: &quic.QUICFlightFrames{Datagrams: dgs}, term: u.App("FBFrames", u.List(ts)), desc: fmt.Sprintf("QUICFlightFrames%+v", dgs)}
+}
+
+func uwireRFF(dgs ...quic.QUICRandomFlightDatagram) uwirePlan {
+	ts := make([]string, len(dgs))
+	for i, d := range dgs {
+		rs := make([]string, len(d.CryptoRanges))
+		for j, cr := range d.CryptoRanges {
+			rs[j] = u.Pair(u.Z(int64(cr.Offset)), u.Z(int64(cr.Length)))
+		}
+		ts[i] = u.Pair(u.List(rs), rfTerm(d.Frames))
+	}
+	return uwirePlan{fb: &quic.QUICRandomFlightFrames{PerDatagram: dgs}, term: u.App("FBRandom", u.List(ts)), desc: fmt.Sprintf("QUICRandomFlightFrames%+v", dgs)}
+}
+
+func uwireC(o, l int) quic.QUICFrame { return quic.QUICFrameCrypto{Offset: o, Length: l} }
+
+// uwirePlans: every plan goes through the REAL planInitialFlight (first PackCoalescedPacket of a
+// connection whose spec has a flight builder): budgets from the real flightBudgets, BuildFlight,
+// validateInitialFlight, then packPlannedInitial for each payload. Monitors: an accepted plan's
+// datagrams carry the ClientHello completely at true offsets; a rejected plan sends nothing,
+// now or later.
+func uwirePlans(w *bufio.Writer, root *u.Rng, n int, dist map[string]int) {
+	R := func(o, l int) quic.QUICCryptoRange { return quic.QUICCryptoRange{Offset: o, Length: l} }
+	z := quic.QUICRandomFrames{}
+	fixed := []struct {
+		hl   int
+		plan uwirePlan
+	}{
+		// the shape of seeded change C09-e: 62 bytes sent twice, byte 1200 never
+		{1600, uwireFF(quic.QUICFrames{uwireC(-365, 0), uwireC(0, 62)}, quic.QUICFrames{uwireC(0, 1200)}, quic.QUICFrames{uwireC(1201, -365)})},
+		// the same with the hole closed: overlap is fine
+		{1600, uwireFF(quic.QUICFrames{uwireC(-365, 0), uwireC(0, 62)}, quic.QUICFrames{uwireC(0, 1200)}, quic.QUICFrames{uwireC(1200, -365)})},
+		// a large overlap hiding a small hole further up, and one hiding nothing
+		{900, uwireFF(quic.QUICFrames{uwireC(0, 500)}, quic.QUICFrames{uwireC(100, 400), uwireC(510, 0)})},
+		{900, uwireFF(quic.QUICFrames{uwireC(0, 500)}, quic.QUICFrames{uwireC(100, 400), uwireC(500, 0)})},
+		// everything addressed from the end
+		{1600, uwireFF(quic.QUICFrames{uwireC(-800, 0), quic.QUICFramePing{}}, quic.QUICFrames{quic.QUICFramePadding{Length: 3}, uwireC(-1600, -800)})},
+		// hole at the very start / at the very end
+		{700, uwireFF(quic.QUICFrames{uwireC(1, 0)})},
+		{700, uwireFF(quic.QUICFrames{uwireC(0, -1)})},
+		// one datagram larger than its budget; a range out of bounds; no datagrams
+		{1600, uwireFF(quic.QUICFrames{uwireC(0, 0)})},
+		{700, uwireFF(quic.QUICFrames{uwireC(0, 701)})},
+		{700, uwireFF()},
+		// random flight frames: ranges overlapping across datagrams, tail first; one with a hole
+		{1500, uwireRFF(quic.QUICRandomFlightDatagram{CryptoRanges: []quic.QUICCryptoRange{R(-365, 0), R(0, 62)}, Frames: quic.QUICRandomFrames{MinCRYPTO: 2, MaxCRYPTO: 4, MaxPING: 2}},
+			quic.QUICRandomFlightDatagram{CryptoRanges: []quic.QUICCryptoRange{R(30, -300)}, Frames: z})},
+		{1500, uwireRFF(quic.QUICRandomFlightDatagram{CryptoRanges: []quic.QUICCryptoRange{R(-365, 0), R(0, 62)}, Frames: z},
+			quic.QUICRandomFlightDatagram{CryptoRanges: []quic.QUICCryptoRange{R(0, 1100)}, Frames: z},
+			quic.QUICRandomFlightDatagram{CryptoRanges: []quic.QUICCryptoRange{R(1101, -365)}, Frames: z})},
+	}
+	total := len(fixed) + n/2
+	for i := 0; i < total; i++ {
+		r := root.Fork()
+		var hl int
+		var plan uwirePlan
+		if i < len(fixed) {
+			hl, plan = fixed[i].hl, fixed[i].plan
+		} else {
+			hl = r.Range(1, 1500)
+			if r.Intn(10) == 0 {
+				hl = r.Range(1500, 3000)
+			}
+			ndg := r.Range(1, 4)
+			cover := genCover(r, hl, ndg)
+			mode := r.Intn(4) // 0: exact cover, 1: with overlaps, 2: overlap + hole, 3: perturbed
+			var dgsF []quic.QUICFrames
+			var dgsR []quic.QUICRandomFlightDatagram
+			random := r.Bool()
+			for _, ps := range cover {
+				var qfs quic.QUICFrames
+				var rs []quic.QUICCryptoRange
+				for _, p := range ps {
+					s, e := p.s, p.e
+					switch {
+					case mode == 1 || mode == 2:
+						if r.Bool() { // widen downwards: overlap with whatever lies below
+							s = max(0, s-r.Range(1, 80))
+						}
+						if mode == 2 && r.Intn(3) == 0 && e-s > 2 { // and cut a few bytes off the top: a hole
+							e -= r.Range(1, min(e-s-1, 40))
+						}
+					case mode == 3:
+						switch r.Intn(4) {
+						case 0:
+							continue
+						case 1:
+							s, e = max(0, s+r.Range(-2, 2)), e+r.Range(-2, 2)
+						}
+					}
+					e = max(e, s)
+					o, l := addrForms(r, min(s, hl), min(max(e, s), hl), hl)
+					if mode == 3 && r.Intn(8) == 0 {
+						o, l = r.Range(-hl-2, hl+2), r.Range(-hl-2, hl+2)
+					}
+					qfs = append(qfs, uwireC(o, l))
+					rs = append(rs, R(o, l))
+				}
+				if r.Intn(3) == 0 {
+					qfs = append(qfs, quic.QUICFramePing{})
+				}
+				if r.Intn(4) == 0 {
+					qfs = append(quic.QUICFrames{quic.QUICFramePadding{Length: r.Intn(9)}}, qfs...)
+				}
+				dgsF = append(dgsF, qfs)
+				g, _ := genRF(r, hl)
+				if r.Intn(4) != 0 {
+					g.MaxPING, g.MaxCRYPTO = max(g.MaxPING, g.MinPING), max(g.MaxCRYPTO, g.MinCRYPTO)
+					g.MinPADDING = max(g.MinPADDING, 1)
+					g.MaxPADDING = max(g.MaxPADDING, g.MinPADDING)
+				}
+				g.Length = uint16(r.Pick(0, 0, 0, 600, 1100))
+				dgsR = append(dgsR, quic.QUICRandomFlightDatagram{CryptoRanges: rs, Frames: g})
+			}
+			if random {
+				plan = uwireRFF(dgsR...)
+			} else {
+				plan = uwireFF(dgsF...)
+			}
+			dist[fmt.Sprintf("plan-mode-%d", mode)]++
+		}
+		hello := testData(r, hl)
+		ips := quic.InitialPacketSpec{FrameBuilder: plan.fb}
+		if i >= len(fixed) && r.Intn(4) == 0 { // budgets pinned by InitialPackets
+			for k := r.Range(1, 3); k > 0; k-- {
+				ips.InitialPackets = append(ips.InitialPackets, quic.InitialPacketPlan{PacketSize: int(r.Pick(0, 1200, 1252))})
+			}
+		}
+		rx := quic.NewVerifRetx(&quic.QUICSpec{InitialPacketSpec: ips}, hello, 1252)
+		budgets := rx.VerifUFramesFlightBudgets()
+		pseed := int64(r.U64() >> 1)
+		var wires [][]byte
+		var perr error
+		var pan any
+		sentAfter := false
+		consumed, pan2 := withScript(r, pseed, func() {
+			for k := 0; k < 12; k++ {
+				pkt, err, p := rx.Pack(false, false)
+				if p != nil {
+					pan = p
+					return
+				}
+				if err != nil {
+					if perr != nil {
+						return
+					}
+					perr = err
+					continue // a rejected plan must not send anything later either
+				}
+				if pkt == nil {
+					return
+				}
+				if perr != nil {
+					sentAfter = true
+					return
+				}
+				wires = append(wires, pkt.Wire)
+			}
+		})
+		if pan == nil {
+			pan = pan2
+		}
+		detail := func() string {
+			return fmt.Sprintf("%s plans=%+v len=%d budgets=%v hello=%x rand=%x mseed=%d", plan.desc, ips.InitialPackets, hl, budgets, hello, consumed, pseed)
+		}
+		res := "PPanic"
+		nt := 0
+		switch {
+		case pan != nil:
+			monfail(w, "uframes/panic", fmt.Sprintf("planning the Initial flight panicked: %v", pan), detail())
+		case perr != nil:
+			dist["plan-rejected"]++
+			cls := errClass(perr)
+			if v := valClass(perr); v != 99 && v != 0 {
+				cls = 100 + v
+			}
+			if cls == 99 {
+				monfail(w, "uwire/plan/error", "unexpected error: "+perr.Error(), detail())
+			}
+			if len(wires) > 0 || sentAfter {
+				monfail(w, "uwire/plan/sent-although-rejected", "the flight plan was rejected ("+perr.Error()+") but Initial packets went out", detail())
+			}
+			res = u.App("PErr", u.Z(cls))
+		default:
+			dist["plan-accepted"]++
+			nt = 1
+			if msg, _ := checkCover(wires, hello, 0, false); msg != "" {
+				monfail(w, "uwire/plan/incomplete", "planInitialFlight accepted the plan but the datagrams sent do not carry the ClientHello: "+msg, detail())
+			}
+			res = u.App("POk", hexList(wires))
+		}
+		us := "[]"
+		if rff, ok := plan.fb.(*quic.QUICRandomFlightFrames); ok {
+			nf := 16
+			for _, dg := range rff.PerDatagram { // one uint32 per frame of each datagram's shuffle (plus rare rejections)
+				nf += 8 + int(dg.Frames.MaxPING) + int(dg.Frames.MaxPADDING) + len(dg.CryptoRanges)*int(max(dg.Frames.MaxCRYPTO, 1))
+			}
+			if perr == nil && pan == nil {
+				k := 16
+				for _, wv := range wires {
+					if fr, e := readFrames(wv); e == nil {
+						k += len(fr) + 8
+					}
+				}
+				nf = min(nf, k)
+			}
+			us = u.ZList(u32Stream(pseed, nf))
+		}
+		fmt.Fprintf(w, "CASE %d %s\n", nt, u.App("PlanCase", plan.term, u.Hex(hello), intList(budgets), u.Hex(consumed), us, res))
+	}
 }
